@@ -1,5 +1,6 @@
 import SupervisorModel.Lemmas.Rotate
 import SupervisorModel.Lemmas.RotateSeg
+import SupervisorModel.Lemmas.LogFan
 /-
   C19 — rotating logs keep the newest output within the configured bounds.
   Property theorems only; the model is `Sv.Rotate` (Model/Rotate.lean), whose comparisons, loop
@@ -594,5 +595,373 @@ example : ((run ⟨true, 3, 1⟩ [.write [1,2], .write [3], .reopen, .write [4,5
     = some [4,5,6,7] := by decide
 example : ((run ⟨true, 3, 1⟩ [.write [1,2], .write [3], .reopen, .write [4,5,6,7], .write [8]]).dir.get 0).map (·.data)
     = some [8] := by decide
+
+/-! ### the clear / reopen fan-out: every log an operation is about is reached
+
+  A logger is a list of handlers (in foreground mode `make_logger()` puts a stdout handler in
+  front of the file handler); a process has several dispatchers, a group several processes, the
+  daemon several groups.  clearLog, ServerOptions.reopenlogs, SIGUSR2, clearProcessLogs and
+  clearAllProcessLogs are loops over these.  The loop bodies are regenerated from the source
+  (`Sv.Gen.Rotate.*_body`, interpreted by `Sv.LogFan.forEach` including break / continue /
+  return); the theorems below hold because the bodies have no early exit. -/
+section Fan
+open Sv.LogFan
+
+/-- **extracted structural fact**: the handler loops of `rpcinterface.clearLog()` and
+    `ServerOptions.reopenlogs()` consist of fixed log messages and `handler.reopen()` under
+    `if hasattr(handler, 'reopen')` only — no break / continue / return / raise, no other
+    condition — and nothing but a plain `return` follows them. -/
+theorem handler_loops_no_early_exit :
+    SafeReopenBody clearLog_body = true ∧ postOk clearLog_post = true ∧ clearLog_pre = [] ∧
+    SafeReopenBody optReopenlogs_body = true ∧ postOk optReopenlogs_post = true := by decide
+
+/-- **extracted structural fact**: the loops over a process's dispatchers, a group's processes
+    and the daemon's groups (removelogs / reopenlogs / SIGUSR2) call the element's method and do
+    nothing else: no early exit, no condition other than the matching `hasattr`. -/
+theorem process_loops_no_early_exit :
+    spRemovelogs_body.all okElemStmt = true ∧ spReopenlogs_body.all okElemStmt = true ∧
+    pgRemovelogs_body.all okElemStmt = true ∧ pgReopenlogs_body.all okElemStmt = true ∧
+    sigusr2_body.all okElemStmt = true ∧
+    spRemovelogs_pre = [] ∧ spReopenlogs_pre = [] ∧ pgRemovelogs_pre = [] ∧ pgReopenlogs_pre = [] ∧
+    postOk spRemovelogs_post = true ∧ postOk spReopenlogs_post = true ∧
+    postOk pgRemovelogs_post = true ∧ postOk pgReopenlogs_post = true ∧ postOk sigusr2_post = true := by decide
+
+/-- what a later write does in a handler that is bound to its configured path, in every
+    configuration: it is in the file at that path (or, when that fills a rotating log, in `.1`
+    with a new empty log at the path), and the handler stays bound -/
+def LandsAtPath (c : Cfg) (s : S) (f : File) (b : Bytes) : Prop :=
+  Bound (emit c b s) ∧
+  ((c.rotating = false ∨ c.maxBytes ≤ 0) → content (emit c b s).dir.get 0 = f.data ++ b) ∧
+  (c.rotating = true → 0 < c.maxBytes → ((f.data ++ b).length : Int) < c.maxBytes →
+      content (emit c b s).dir.get 0 = f.data ++ b) ∧
+  (c.rotating = true → 0 < c.maxBytes → c.maxBytes ≤ ((f.data ++ b).length : Int) →
+      (emit c b s).dir.get 0 = some ⟨s.hist + b.length, true, []⟩ ∧
+      (0 < c.backupCount → content (emit c b s).dir.get 1 = f.data ++ b))
+
+theorem bound_write_lands (c : Cfg) (s : S) (hb : Bound s) (f : File) (hf : s.dir.get 0 = some f) (b : Bytes) :
+    LandsAtPath c s f b := by
+  refine ⟨(emit_any c s hb.wf b).2.2.1 hb, ?_, ?_, ?_⟩
+  · intro hoff
+    rw [emit_off_attached c hoff s hb.ok hb.att f hf b]
+    simp [content]
+  · intro hr hm hl
+    obtain ⟨_, _, _, g⟩ := emit_attached_gen c hr hm s hb.ok hb.att f hf b
+    simp only [content, g, if_pos hl]
+    simp
+  · intro hr hm hl
+    obtain ⟨_, _, _, g⟩ := emit_attached_gen c hr hm s hb.ok hb.att f hf b
+    have hl' : ¬ ((f.data ++ b).length : Int) < c.maxBytes := by omega
+    simp only [content, g, if_neg hl']
+    refine ⟨by simp [rollSpec], ?_⟩
+    intro hN
+    simp [rollSpec, hN]
+
+/-- **clearLog reaches every file handler**: for *every* list of handlers (a stdout handler or a
+    handler without reopen() before, between or after the file handlers — in particular the
+    foreground logger `[stdout, file]`), whatever happened to the files before: clearLog does not
+    fail, and afterwards every file-backed handler is bound to a file at its configured path
+    which is a *fresh* one — created by the handler itself, not before the clear began (so not
+    the file that was unlinked, and nothing written before the clear is in it). -/
+theorem clearLog_every_file_handler_fresh (fmt : String → Bytes) (hs : List Handler)
+    (hwf : ∀ (j : Nat) c s, hs[j]? = some (Handler.file c s) → WF s)
+    (hp : logfilePresent 0 hs = true) :
+    ∃ hs', LogFan.clearLog fmt hs = some hs' ∧ hs'.length = hs.length ∧
+      ∀ (j : Nat) c s, hs[j]? = some (Handler.file c s) →
+        ∃ s' f, hs'[j]? = some (Handler.file c s') ∧ Bound s' ∧ s'.dir.get 0 = some f ∧
+          f.own = true ∧ s.hist ≤ f.start ∧ s.hist ≤ s'.hist := by
+  obtain ⟨hb, hpost, hpre, _, _⟩ := handler_loops_no_early_exit
+  have hidx : clearLog_removedIdx = 0 := rfl
+  have hwf' : ∀ (j : Nat) c s1, (hs.map (unlinkH 0))[j]? = some (Handler.file c s1) → WF s1 := by
+    intro j c s1 h
+    simp only [List.getElem?_map, Option.map_eq_some_iff] at h
+    obtain ⟨x, hx, hu⟩ := h
+    cases x with
+    | stream n => simp [unlinkH] at hu
+    | bare n => simp [unlinkH] at hu
+    | file c0 s0 =>
+      simp only [unlinkH, Handler.file.injEq] at hu
+      obtain ⟨rfl, rfl⟩ := hu
+      exact (unlink_any s0 (hwf j c0 s0 hx)).1
+  obtain ⟨xs', h, hl, hall⟩ := forEach_safe fmt clearLog_body hb (hs.map (unlinkH 0)) hwf'
+  refine ⟨xs', ?_, by simpa using hl, ?_⟩
+  · simp [LogFan.clearLog, hidx, hp, hpost, hpre, h]
+  · intro j c s hj
+    have ha : (hs.map (unlinkH 0))[j]? = some (Handler.file c (extRemove 0 s)) := by
+      simp [List.getElem?_map, hj, unlinkH]
+    have hjl : j < xs'.length := by
+      rw [hl]; simp
+      rcases Nat.lt_or_ge j hs.length with h | h
+      · exact h
+      · have : hs[j]? = none := by simp [h]
+        rw [this] at hj; cases hj
+    obtain ⟨e, bd⟩ := hall j _ xs'[j] ha (by simp [hjl])
+    obtain ⟨w1, hi1, fr1⟩ := unlink_any s (hwf j c s hj)
+    cases hx : xs'[j] with
+    | stream n => rw [hx] at e; simp [Ev] at e
+    | bare n => rw [hx] at e; simp [Ev] at e
+    | file c' s' =>
+      rw [hx] at e bd
+      obtain ⟨rfl, _, hh, fr⟩ := e
+      rw [hi1] at hh fr
+      have bd' : Bound s' := bd
+      cases h0 : s'.dir.get 0 with
+      | none => have := bd'.present; rw [h0] at this; simp at this
+      | some f =>
+        obtain ⟨o, st⟩ := fr fr1 f h0
+        exact ⟨s', f, by simp [hjl, hx], bd', h0, o, st, hh⟩
+
+/-- clearLog on a log that is not there answers NO_FILE and does nothing -/
+theorem clearLog_absent (fmt : String → Bytes) (hs : List Handler) (hp : logfilePresent 0 hs = false) :
+    LogFan.clearLog fmt hs = some hs := by
+  have hidx : clearLog_removedIdx = 0 := rfl
+  simp [LogFan.clearLog, hidx, hp]
+
+/-- **every write after clearLog is in the file at the configured path**: in every handler list
+    and every configuration of the file handler, the message logged next is in the fresh file
+    at the configured path, preceded only by what was logged since the clear (or, when it fills
+    a rotating log, in `.1` with a new empty log at the path) — and the handler stays bound to
+    the path, so the same holds for the message after that (`bound_write_lands`). -/
+theorem write_after_clearLog_at_path (fmt : String → Bytes) (hs : List Handler)
+    (hwf : ∀ (j : Nat) c s, hs[j]? = some (Handler.file c s) → WF s)
+    (hp : logfilePresent 0 hs = true) (b : Bytes) :
+    ∃ hs', LogFan.clearLog fmt hs = some hs' ∧
+      ∀ (j : Nat) c s, hs[j]? = some (Handler.file c s) →
+        ∃ s' f, hs'[j]? = some (Handler.file c s') ∧ s'.dir.get 0 = some f ∧ s.hist ≤ f.start ∧
+          (logAll b hs')[j]? = some (Handler.file c (emit c b s')) ∧ LandsAtPath c s' f b := by
+  obtain ⟨hs', h, _, hall⟩ := clearLog_every_file_handler_fresh fmt hs hwf hp
+  refine ⟨hs', h, ?_⟩
+  intro j c s hj
+  obtain ⟨s', f, hx, bd, hf, _, hst, _⟩ := hall j c s hj
+  exact ⟨s', f, hx, hf, hst, by simp [logAll, List.getElem?_map, hx, emitH], bound_write_lands c s' bd f hf b⟩
+
+/-- the handlers `ServerOptions.make_logger()` builds: in every configuration (daemon, foreground,
+    foreground + silent) the list ends with the file handler on the configured path -/
+theorem mkLogger_shape (nodaemon silent : Bool) (c : Cfg) :
+    mkLogger nodaemon silent c =
+      some ((if nodaemon && !silent then [Handler.stream 0] else []) ++ [Handler.file c (init c)]) := by
+  cases nodaemon <;> cases silent <;> simp [mkLogger, makeLogger_handlers, mkHandlers]
+
+/-- **clearLog in every make_logger configuration**: daemon / foreground / silent, plain or
+    rotating, with or without backups, after any history of messages: the activity log's file
+    handler is bound to a fresh file at the configured path, and the next message lands there. -/
+theorem clearLog_every_configuration (fmt : String → Bytes) (nodaemon silent : Bool) (c : Cfg)
+    (msgs : List Bytes) (b : Bytes) :
+    ∃ hs0 hs hs', mkLogger nodaemon silent c = some hs0 ∧ hs = msgs.foldl (fun h m => logAll m h) hs0 ∧
+      LogFan.clearLog fmt hs = some hs' ∧
+      ∃ s' f, Handler.file c s' ∈ hs' ∧ Bound s' ∧ s'.dir.get 0 = some f ∧ f.own = true ∧ LandsAtPath c s' f b := by
+  -- the file handler stays bound through any messages
+  have key : ∀ (msgs : List Bytes) (pre : List Handler) (s : S), Bound s → (∀ h ∈ pre, ∃ n, h = Handler.stream n) →
+      ∃ pre' s1, msgs.foldl (fun h m => logAll m h) (pre ++ [Handler.file c s]) = pre' ++ [Handler.file c s1] ∧
+        Bound s1 ∧ pre'.length = pre.length ∧ (∀ h ∈ pre', ∃ n, h = Handler.stream n) := by
+    intro msgs
+    induction msgs with
+    | nil => intro pre s bd hpre; exact ⟨pre, s, rfl, bd, rfl, hpre⟩
+    | cons m r ih =>
+      intro pre s bd hpre
+      have : logAll m (pre ++ [Handler.file c s]) = pre.map (emitH m) ++ [Handler.file c (emit c m s)] := by
+        simp [logAll, emitH]
+      simp only [List.foldl_cons, this]
+      obtain ⟨pre', s1, h1, h2, h3, h4⟩ := ih (pre.map (emitH m)) (emit c m s) ((emit_any c s bd.wf m).2.2.1 bd) (by
+        intro h hh
+        simp only [List.mem_map] at hh
+        obtain ⟨x, hx, rfl⟩ := hh
+        obtain ⟨n, rfl⟩ := hpre x hx
+        exact ⟨_, rfl⟩)
+      exact ⟨pre', s1, h1, h2, by simpa using h3, h4⟩
+  have b0 : Bound (init c) := by
+    refine ⟨by simp [init, openFile, fexists], by simp [init, openFile, fexists], by simp [init, openFile, fexists]⟩
+  obtain ⟨pre', s1, h1, bd1, hl, hpre'⟩ := key msgs (if nodaemon && !silent then [Handler.stream 0] else []) (init c) b0 (by
+    intro h hh; split at hh <;> simp at hh; exact ⟨0, hh⟩)
+  have hwf : ∀ (j : Nat) c' s, (pre' ++ [Handler.file c s1])[j]? = some (Handler.file c' s) → WF s := by
+    intro j c' s hj
+    have hm : Handler.file c' s ∈ pre' ++ [Handler.file c s1] := List.mem_of_getElem? hj
+    rcases List.mem_append.mp hm with hm | hm
+    · obtain ⟨n, hn⟩ := hpre' _ hm; cases hn
+    · simp at hm; obtain ⟨rfl, rfl⟩ := hm; exact bd1.wf
+  have hp : logfilePresent 0 (pre' ++ [Handler.file c s1]) = true := by
+    simp [logfilePresent, fexists, bd1.present]
+  obtain ⟨hs', h, hl', hall⟩ := clearLog_every_file_handler_fresh fmt _ hwf hp
+  obtain ⟨s', f, hx, bd, hf, ho, _, _⟩ := hall pre'.length c s1 (by simp)
+  exact ⟨_, _, hs', mkLogger_shape nodaemon silent c, h1.symm ▸ rfl, h1 ▸ h, s', f, List.mem_of_getElem? hx, bd, hf, ho,
+    bound_write_lands c s' bd f hf b⟩
+
+/-- the contrast that makes the theorem non-trivial: the same loop *with* an early exit after the
+    first handler that has reopen() leaves the foreground logger's file handler on the unlinked
+    file — nothing at the configured path, later messages invisible -/
+theorem early_exit_loses_the_log :
+    let body : List FanStmt := clearLog_body ++ [⟨[(true, "hasattr", "reopen")], "break", ""⟩]
+    let c : Cfg := ⟨false, 0, 0⟩
+    ((forEach (logActs fun _ => [1]) body [Handler.stream 0, Handler.file c (extRemove 0 (init c))]).map fun hs =>
+      hs.map fun h => match h with
+        | .file _ s => (decide (s.stream = .attached 0), (s.dir.get 0).isSome)
+        | _ => (true, true)) = some [(true, true), (false, false)] := by
+  decide
+
+/-- **ServerOptions.reopenlogs() (SIGUSR2) reaches every file handler** of the activity logger:
+    for every handler list, afterwards every file-backed handler is bound to a file at its
+    configured path (created if the old one was moved away), so what is logged next is there. -/
+theorem reopenlogs_every_file_handler_bound (fmt : String → Bytes) (hs : List Handler)
+    (hwf : ∀ (j : Nat) c s, hs[j]? = some (Handler.file c s) → WF s) :
+    ∃ hs', optReopenlogs fmt hs = some hs' ∧ hs'.length = hs.length ∧
+      ∀ (j : Nat) c s, hs[j]? = some (Handler.file c s) →
+        ∃ s' f, hs'[j]? = some (Handler.file c s') ∧ Bound s' ∧ s'.dir.get 0 = some f ∧
+          ∀ b, LandsAtPath c s' f b := by
+  obtain ⟨_, _, _, hb, hpost⟩ := handler_loops_no_early_exit
+  have hpre : runPre fmt (fun _ _ => none) optReopenlogs_pre hs = some (logAll (fmt "supervisord logreopen") hs) := by
+    simp [optReopenlogs_pre, runPre]
+  have hwf' : ∀ (j : Nat) c s1, (logAll (fmt "supervisord logreopen") hs)[j]? = some (Handler.file c s1) → WF s1 := by
+    intro j c s1 h
+    simp only [logAll, List.getElem?_map, Option.map_eq_some_iff] at h
+    obtain ⟨x, hx, hu⟩ := h
+    cases x with
+    | stream n => simp [emitH] at hu
+    | bare n => simp [emitH] at hu
+    | file c0 s0 =>
+      simp only [emitH, Handler.file.injEq] at hu
+      obtain ⟨rfl, rfl⟩ := hu
+      exact (emit_any c0 s0 (hwf j c0 s0 hx) _).1
+  obtain ⟨xs', h, hl, hall⟩ := forEach_safe fmt optReopenlogs_body hb _ hwf'
+  refine ⟨xs', by simp [optReopenlogs, hpost, hpre, h], by simpa [logAll] using hl, ?_⟩
+  intro j c s hj
+  have ha : (logAll (fmt "supervisord logreopen") hs)[j]? = some (Handler.file c (emit c (fmt "supervisord logreopen") s)) := by
+    simp [logAll, List.getElem?_map, hj, emitH]
+  have hjl : j < xs'.length := by
+    rw [hl]; simp [logAll]
+    rcases Nat.lt_or_ge j hs.length with h | h
+    · exact h
+    · have : hs[j]? = none := by simp [h]
+      rw [this] at hj; cases hj
+  obtain ⟨e, bd⟩ := hall j _ xs'[j] ha (by simp [hjl])
+  cases hx : xs'[j] with
+  | stream n => rw [hx] at e; simp [Ev] at e
+  | bare n => rw [hx] at e; simp [Ev] at e
+  | file c' s' =>
+    rw [hx] at e bd
+    obtain ⟨rfl, _, _, _⟩ := e
+    have bd' : Bound s' := bd
+    cases h0 : s'.dir.get 0 with
+    | none => have := bd'.present; rw [h0] at this; simp at this
+    | some f => exact ⟨s', f, by simp [hjl, hx], bd', h0, fun b => bound_write_lands c' s' bd' f h0 b⟩
+
+/-! processes -/
+
+/-- an operation applied to the log of a dispatcher (stdin has none) -/
+def mapLog (f : Cfg → S → S) : Disp → Disp
+  | .input => .input
+  | .output l => .output (l.map fun cs => (cs.1, f cs.1 cs.2))
+  | .listener l => .listener (l.map fun cs => (cs.1, f cs.1 cs.2))
+
+/-- the dispatcher after SIGUSR2 / after clearProcessLogs: its log has had the operation
+    `reopen` / `clear` of `Sv.Rotate`, about which `clear_reopen_safe`, `write_at_path` and
+    `nothing_lost_after` speak -/
+def reopenD : Disp → Disp := mapLog fun c s => step c s .reopen
+def clearD : Disp → Disp := mapLog fun c s => step c s .clear
+
+theorem dispLog_mapLog (f : Cfg → S → S) (d : Disp) :
+    dispLog (mapLog f d) = (dispLog d).map fun cs => (cs.1, f cs.1 cs.2) := by
+  cases d <;> simp [mapLog, dispLog]
+
+theorem listener_loops (c : Cfg) (s : S) :
+    oneHandlerLoop elReopenlogs_body c s = some (c, step c s .reopen) ∧
+    oneHandlerLoop elRemovelogs_body c s = some (c, step c s .clear) ∧
+    postOk elReopenlogs_post = true ∧ elReopenlogs_pre = [] ∧ postOk elRemovelogs_post = true ∧ elRemovelogs_pre = [] := by
+  refine ⟨?_, ?_, by decide, by decide, by decide, by decide⟩
+  · simp [oneHandlerLoop, forEach, runLoop, runBody, elReopenlogs_body, guardsOk, isExit, logActs, modAtM, reopenH, step]
+  · simp [oneHandlerLoop, forEach, runLoop, runBody, elRemovelogs_body, guardsOk, isExit, logActs, modAtM, reopenH,
+      removeH, step]
+
+theorem dispatchers_body (d : Disp) :
+    elemBody Disp.has dispCall spReopenlogs_body d = some (reopenD d) ∧
+    elemBody Disp.has dispCall spRemovelogs_body d = some (clearD d) := by
+  have hl := listener_loops
+  cases d with
+  | input => simp [spReopenlogs_body, spRemovelogs_body, elemBody, elemStep, methOf, Disp.has, reopenD, clearD, mapLog]
+  | output l =>
+    cases l with
+    | none => simp [spReopenlogs_body, spRemovelogs_body, elemBody, elemStep, methOf, Disp.has, dispCall, reopenD, clearD, mapLog]
+    | some cs =>
+      obtain ⟨c, s⟩ := cs
+      have := dispatcher_ops_reach_log c false s
+      simp [spReopenlogs_body, spRemovelogs_body, elemBody, elemStep, methOf, Disp.has, dispCall, reopenD, clearD, mapLog, this]
+  | listener l =>
+    cases l with
+    | none => simp [spReopenlogs_body, spRemovelogs_body, elemBody, elemStep, methOf, Disp.has, dispCall, reopenD, clearD, mapLog]
+    | some cs =>
+      obtain ⟨c, s⟩ := cs
+      obtain ⟨h1, h2, h3, h4, h5, h6⟩ := hl c s
+      simp [spReopenlogs_body, spRemovelogs_body, elemBody, elemStep, methOf, Disp.has, dispCall, reopenD, clearD, mapLog,
+        h1, h2, h3, h4, h5, h6]
+
+/-- `Subprocess.reopenlogs()` / `.removelogs()` reach every dispatcher of the process -/
+theorem procCall_all (p : Proc) :
+    procCall "reopenlogs" p = some (p.map reopenD) ∧ procCall "removelogs" p = some (p.map clearD) := by
+  obtain ⟨h1, h2, _, _, _, p1, p2, _, _, q1, q2, _, _, _⟩ := process_loops_no_early_exit
+  refine ⟨?_, ?_⟩
+  · have := forEach_elem Disp.has dispCall spReopenlogs_body h2 reopenD (fun d => (dispatchers_body d).1) p
+    simp [procCall, p2, q2, dispActs, this]
+  · have := forEach_elem Disp.has dispCall spRemovelogs_body h1 clearD (fun d => (dispatchers_body d).2) p
+    simp [procCall, p1, q1, dispActs, this]
+
+/-- `ProcessGroupBase.reopenlogs()` / `.removelogs()` reach every process of the group -/
+theorem groupCall_all (g : Group) :
+    groupCall "reopenlogs" g = some (g.map (·.map reopenD)) ∧ groupCall "removelogs" g = some (g.map (·.map clearD)) := by
+  obtain ⟨_, _, h3, h4, _, _, _, p3, p4, _, _, q3, q4, _⟩ := process_loops_no_early_exit
+  refine ⟨?_, ?_⟩
+  · have := forEach_elem (fun (_ : Proc) a => a == "removelogs" || a == "reopenlogs") procCall pgReopenlogs_body h4
+      (·.map reopenD) (fun p => by simp [pgReopenlogs_body, elemBody, elemStep, methOf, (procCall_all p).1]) g
+    simp [groupCall, p4, q4, procActs, this]
+  · have := forEach_elem (fun (_ : Proc) a => a == "removelogs" || a == "reopenlogs") procCall pgRemovelogs_body h3
+      (·.map clearD) (fun p => by simp [pgRemovelogs_body, elemBody, elemStep, methOf, (procCall_all p).2]) g
+    simp [groupCall, p3, q3, procActs, this]
+
+/-- **SIGUSR2 reaches every log**: `Supervisor.handle_signal()` on SIGUSR2 does not fail, every
+    file-backed handler of the activity logger (any handler list) ends bound to a file at its
+    configured path, and the log of *every* dispatcher of *every* process of *every* group has
+    had `reopen` — stdout and stderr logs, event listeners' logs; nothing else is touched. -/
+theorem sigusr2_reaches_every_log (fmt : String → Bytes) (line : Bytes) (w : World)
+    (hwf : ∀ (j : Nat) c s, w.act[j]? = some (Handler.file c s) → WF s) :
+    ∃ act', sigusr2 fmt line w = some ⟨act', w.groups.map (·.map (·.map reopenD))⟩ ∧
+      act'.length = w.act.length ∧
+      ∀ (j : Nat) c s, w.act[j]? = some (Handler.file c s) →
+        ∃ s' f, act'[j]? = some (Handler.file c s') ∧ Bound s' ∧ s'.dir.get 0 = some f ∧ ∀ b, LandsAtPath c s' f b := by
+  obtain ⟨_, _, _, _, h5, _, _, _, _, _, _, _, _, q5⟩ := process_loops_no_early_exit
+  have hwf' : ∀ (j : Nat) c s1, (logAll line w.act)[j]? = some (Handler.file c s1) → WF s1 := by
+    intro j c s1 h
+    simp only [logAll, List.getElem?_map, Option.map_eq_some_iff] at h
+    obtain ⟨x, hx, hu⟩ := h
+    cases x with
+    | stream n => simp [emitH] at hu
+    | bare n => simp [emitH] at hu
+    | file c0 s0 =>
+      simp only [emitH, Handler.file.injEq] at hu
+      obtain ⟨rfl, rfl⟩ := hu
+      exact (emit_any c0 s0 (hwf j c0 s0 hx) _).1
+  obtain ⟨act', h, hl, hall⟩ := reopenlogs_every_file_handler_bound fmt (logAll line w.act) hwf'
+  have hg := forEach_elem (fun (_ : Group) a => a == "removelogs" || a == "reopenlogs") groupCall sigusr2_body h5
+    (·.map (·.map reopenD)) (fun g => by simp [sigusr2_body, elemBody, elemStep, methOf, (groupCall_all g).1]) w.groups
+  refine ⟨act', ?_, by simpa [logAll] using hl, ?_⟩
+  · simp [sigusr2, q5, sigusr2_pre, runPre, h, groupActs, hg]
+  · intro j c s hj
+    exact hall j c (emit c line s) (by simp [logAll, List.getElem?_map, hj, emitH])
+
+/-- **clearProcessLogs / clearAllProcessLogs reach every log of the process / of every process**:
+    each dispatcher's log has had `clear` (removed and reopened: `clear_reopen_safe`), the
+    activity log is not touched -/
+theorem clearProcessLogs_reaches_every_log (w : World) :
+    (∀ p : Proc, procCalls clearProcessLogs_calls p = some (p.map clearD)) ∧
+    clearAll w = some ⟨w.act, w.groups.map (·.map (·.map clearD))⟩ := by
+  have h1 : ∀ p : Proc, procCalls clearProcessLogs_calls p = some (p.map clearD) := by
+    intro p; simp [clearProcessLogs_calls, procCalls, (procCall_all p).2]
+  refine ⟨h1, ?_⟩
+  have h2 := allM_map (fun g : Group => g.map (·.map clearD)) (allM (procCalls clearProcessLogs_calls))
+    (fun g => allM_map (·.map clearD) _ h1 g) w.groups
+  simp [clearAll, h2]
+
+-- non-vacuity: the foreground logger after a message, its file present; a process with three dispatchers
+example : logfilePresent 0 (logAll [65] [Handler.stream 0, Handler.file ⟨true, 100, 2⟩ (init ⟨true, 100, 2⟩)]) = true := by decide
+example : ((clearD (Disp.output (some (⟨true, 4, 1⟩, run ⟨true, 4, 1⟩ [.write [1, 2]])))) |> dispLog).map
+    (fun cs => (cs.2.dir.get 0).map (·.data)) = some (some []) := by decide
+
+end Fan
 
 end Sv.Props.C19
